@@ -1,12 +1,15 @@
 #!/bin/bash
 # usage: tools/try_mutation.sh <dir with patch.diff and demo.py> <Cxx> [<Cyy> ...]
 # Confirms a seeded change in a scratch worktree of /repo (suite still green, demo fails
-# with it and passes without it), then runs the given checks against that worktree.
+# with it and passes without it), then runs the given checks against that worktree from a
+# scratch COPY of /verif (so that regenerated tables, build output, evidence and replays of
+# the trial never touch /verif itself).
 set -u
 M=$(readlink -f "$1"); shift
 WT=$(mktemp -d /tmp/mt_XXXXXX)
+VC=$(mktemp -d /tmp/vt_XXXXXX)
 git -C /repo worktree add -f "$WT" HEAD >/dev/null 2>&1 || { echo "worktree failed"; exit 2; }
-cleanup() { git -C /repo worktree remove --force "$WT" >/dev/null 2>&1; rm -rf "$WT"; }
+cleanup() { git -C /repo worktree remove --force "$WT" >/dev/null 2>&1; rm -rf "$WT" "$VC"; }
 trap cleanup EXIT
 cd "$WT"
 export PYTHONPATH="$WT" PYTHONHASHSEED=0 PYTHONDONTWRITEBYTECODE=1
@@ -14,7 +17,8 @@ export PYTHONPATH="$WT" PYTHONHASHSEED=0 PYTHONDONTWRITEBYTECODE=1
 git apply "$M/patch.diff" || { echo "patch does not apply"; exit 2; }
 /venv/bin/python "$M/demo.py" >/dev/null 2>&1; echo "demo with change: exit $?"
 /venv/bin/python -m pytest -q -p no:cacheprovider --timeout=900 2>&1 | tail -1
-cd /verif
+rsync -a --exclude .git --exclude replays --exclude work --exclude seeded /verif/ "$VC/"
+cd "$VC"
 for p in "$@"; do
   PFDL_REPO="$WT" VERIF_TIER=${VERIF_TIER:-quick} ./check "$p" > "$WT/check_$p.log" 2>&1
   echo "check $p: exit $? :: $(grep -c '^VIOLATION' "$WT/check_$p.log") violation line(s) :: $(tail -1 "$WT/check_$p.log")"
